@@ -106,6 +106,27 @@ impl<K: Copy + Ord, V: Copy> BTreeMap<K, V> {
         self.slots[self.len] = None;
         old
     }
+    /// keep only the entries for which `f` answers true (ascending key order, like std)
+    pub fn retain<F: FnMut(&K, &mut V) -> bool>(&mut self, mut f: F) {
+        let mut out: BTreeMap<K, V> = BTreeMap::default();
+        let mut i = 0;
+        while i < MAP_CAP {
+            if i < self.len {
+                if let Some((k, mut v)) = self.slots[i] {
+                    if f(&k, &mut v) {
+                        // keys arrive in ascending order: append
+                        out.slots[out.len] = Some((k, v));
+                        out.len += 1;
+                    }
+                }
+            }
+            i += 1;
+        }
+        *self = out;
+    }
+    pub fn clear(&mut self) {
+        *self = BTreeMap::default();
+    }
     /// insert every entry of `o` (later keys overwrite), like Extend<(K, V)>
     pub fn extend(&mut self, o: BTreeMap<K, V>) {
         let mut i = 0;
@@ -207,5 +228,14 @@ impl<K: Copy + Ord, V: Copy + Eq> Eq for BTreeMap<K, V> {}
 impl<K: Copy + Ord, V: Copy> core::fmt::Debug for BTreeMap<K, V> {
     fn fmt(&self, _f: &mut core::fmt::Formatter<'_>) -> core::fmt::Result {
         Ok(())
+    }
+}
+impl<K: Copy + Ord, V: Copy> FromIterator<(K, V)> for BTreeMap<K, V> {
+    fn from_iter<I: IntoIterator<Item = (K, V)>>(it: I) -> Self {
+        let mut m = BTreeMap::default();
+        for (k, v) in it {
+            m.insert(k, v);
+        }
+        m
     }
 }
